@@ -228,6 +228,8 @@ def run_kani(ws, scratch, crate, harnesses, jobs=8, harness_timeout=300, extra_a
     cmd = ["cargo", "kani", "-p", crate, "-Z", "function-contracts", "-Z", "stubbing", "-Z", "unstable-options",
            "--harness-timeout", "%ds" % harness_timeout, "--output-format=terse", "-j", str(jobs),
            "--export-json", out_json, "--exact"]
+    if crate in ("incremental-font-transfer",):
+        cmd += ["--lib"]  # its [[bin]] targets need the `cli` feature
     if solver:
         cmd += ["--solver", solver]
     for h in harnesses:
@@ -280,6 +282,8 @@ def playback(ws, scratch, crate, h, log=None):
     env["CARGO_TARGET_DIR"] = os.path.join(scratch, "target")
     cmd = ["cargo", "kani", "-p", crate, "-Z", "function-contracts", "-Z", "stubbing", "-Z", "concrete-playback",
            "--concrete-playback=inplace", "--exact", "--harness", h.full]
+    if crate in ("incremental-font-transfer",):
+        cmd += ["--lib"]
     res = dict(test_text=None, test_names=[], playback_ran=False, reproduced=False, output="")
     try:
         p = subprocess.run(cmd, cwd=ws, env=env, stdout=subprocess.PIPE, stderr=subprocess.STDOUT, text=True,
